@@ -133,7 +133,9 @@ class MinGenSet():
         if remove_complement_values:
             elements_to_remove = set()
             for val in self.numbers:
-                if total - val in self.numbers and total - val > val:
+                # The complement argument (total - x is the sum of the elements not used for x) needs every element
+                # to be used at most once, so complements are removed only when max_multiplicity == 1
+                if self.max_multiplicity == 1 and total - val in self.numbers and total - val > val:
                     elements_to_remove.add(total - val)
                 if val == total or val == 0:
                     elements_to_remove.add(val)
